@@ -320,8 +320,11 @@ def o_c04(recs):
                     bad.append((i, "refused add changed %s" % what_changed(b, a)))
                 continue
             missing_twice = any(args.count(x) > 1 and x not in b.files and x not in b.dirs for x in args)
-            if r.res.cls != "ok" and not missing_twice:
-                bad.append((i, "valid add failed: %r" % r.res.err[-120:]))
+            if r.res.cls != "ok":
+                if not missing_twice:
+                    bad.append((i, "valid add failed: %r" % r.res.err[-120:]))
+                # (a missing tracked path named twice: the second occurrence legitimately fails after the first
+                # one unstaged it, and the arguments after it are not reached)
                 continue
             got = staged(a)
             diff = [p for p in set(got) | set(exp) if got.get(p) != exp.get(p) and exp.get(p) != "?"]
